@@ -50,6 +50,7 @@ CHECKS = [
     ("logging.py", "C03 C04 C15"),
     ("events.py", "C07 C01"),
     ("typing.py", "C01"),
+    ("middleware/wsgi.py", "C17"),
     ("middleware/*", "C20"),
 ]
 SKIP = ("protocol/h3.py", "protocol/quic.py", "asyncio/udp_server.py", "trio/udp_server.py",
